@@ -2,6 +2,7 @@ package props
 
 import (
 	"context"
+	"errors"
 	"fmt"
 	"strings"
 	"time"
@@ -24,6 +25,7 @@ type c07shape struct {
 	handler bool // a looping/sleeping body with a catch clause: under a deadline the handler must get to run
 	future  bool // needs the thread scheduler
 	depth   int  // try nesting depth
+	pre     string // evaluated first, in the same thread, under a context that never ends
 	finRuns bool // under a generous deadline the finally body must get to run (body or handler is quick)
 }
 
@@ -54,6 +56,8 @@ func c07Shapes(tier string) []c07shape {
 		{name: "future-body-loops", text: "(deref (future (lp 0)))", future: true},
 		{name: "future-body-sleeps", text: "(deref (future (sleep 100000)))", future: true},
 		{name: "future-deref-in-try", text: "(let [f (future (lp 0))] (try (deref f) (catch e (t! :h) 5)))", future: true, depth: 1},
+		{name: "deref-of-future-made-under-another-context", pre: "(def slow (future (wait-forever!)))", text: "(deref slow)", future: true},
+		{name: "deref-of-foreign-future-in-try", pre: "(def slow (future (wait-forever!)))", text: "(try (deref slow) (catch e (t! :h) 5) (finally (t! :fin) 6))", future: true, finally: true, depth: 1},
 		{name: "future-loop-around-deref", text: "(let [f (future (lp 0))] (try (deref f) (catch e (t! :h) (lp 0)) (finally (t! :fin) (lp 0))))", future: true, finally: true, depth: 1},
 	}
 	// every (try P (catch e Q) (finally R)) with P, Q, R from the atoms; thorough: P may be a nested try
@@ -109,6 +113,13 @@ type c07rig struct {
 
 func (rg *c07rig) setup() {
 	rg.base = lx.NewFullEnv()
+	call.CallOverrideFN(rg.base, "wait-forever!", func(ctx context.Context) (types.MalType, error) {
+		// parks (under the thread scheduler) until its own context ends
+		if s := vcore.Active(); s != nil {
+			s.Await(func() bool { return ctx.Err() != nil }, "wait-forever")
+		}
+		return nil, errors.New("context ended")
+	})
 	call.CallOverrideFN(rg.base, "t!", func(c types.MalType) (types.MalType, error) {
 		rg.trace = append(rg.trace, model.FromImpl(c).String())
 		var t int64 = -1
@@ -158,14 +169,27 @@ func (rg *c07rig) run(sh c07shape, mode string, k int64) c07obs {
 		s.VisibleClass = [3]bool{false, false, false}
 		s.IdleHook = clk.AdvanceToNextTimer
 		s.BeginSetup()
-		s.Run(func() { res, err, pn = lx.Eval(ctx, ast, scope) })
-		if s.Deadlock {
+		mainDone := false
+		s.Run(func() {
+			defer func() { mainDone = true }()
+			if sh.pre != "" {
+				if _, perr, pp := lx.Eval(context.Background(), lx.MustRead(sh.pre), scope); perr != nil || pp != nil {
+					panic(fmt.Sprint("c07 pre-evaluation failed: ", perr, pp))
+				}
+			}
+			res, err, pn = lx.Eval(ctx, ast, scope)
+			obs.ticks = clk.Ticks() // when EVAL returned (the scheduler may let time pass afterwards)
+		})
+		if s.Deadlock && !mainDone {
+			// (when EVAL has returned, a future body left parked on its own never-ending context is not a hang of EVAL)
 			obs.hang = true
 		}
 	} else {
 		res, err, pn = lx.Eval(ctx, ast, scope)
 	}
-	obs.ticks = clk.Ticks()
+	if !sh.future {
+		obs.ticks = clk.Ticks()
+	}
 	cancelRoot()
 	obs.trace, obs.stamps = rg.trace, rg.stamp
 	switch {
@@ -215,6 +239,11 @@ func init() {
 				ref := rg.run(sh, mode, 0)
 				r.Exec(1)
 				refTerminates := ref.outcome != "timeout" || ref.ticks < c07Fuel
+				if ref.hang {
+					// the reference run is itself cancelled (by the safety fuel at tick 1200): EVAL must return
+					r.ViolationCase("evaluation blocks forever after cancellation ("+mode+", "+shapeClass(sh)+")", fmt.Sprintf("cancel at tick %d: %s", c07Fuel, sh.text), "no thread enabled and no timer pending after the context was cancelled")
+					return
+				}
 				if strings.HasPrefix(ref.outcome, "panic") {
 					r.Violation("evaluation panics without any cancellation: "+ref.outcome, sh.text)
 					return
